@@ -301,7 +301,9 @@ func (c *connection) handle(ctx context.Context) {
 		}
 
 		verifPoint("conn.read", conn, int64(n))
-		c.isBeingHandled.Store(true)
+		if !c.isBeingHandled.CompareAndSwap(false, true) {
+			return // Shutdown has claimed this (idle) connection and is closing it, do not start handling the request
+		}
 		verifPoint("conn.mark", conn, 0)
 		toSend, closeConn := c.assembler.ReceiveRead(cCtx, received[0:n], n)
 		if toSend != nil {
@@ -346,7 +348,9 @@ func (s *Server) Shutdown(ctx context.Context) error {
 		allIdle := true
 		for c := range s.activeConnections {
 			verifPoint("sd.check", c.conn, 0)
-			if c.isBeingHandled.Load() {
+			// claim idle connection with the same flag that connection uses to mark itself busy, so that request
+			// can not start being handled between checking the flag and closing the connection
+			if !c.isBeingHandled.CompareAndSwap(false, true) {
 				allIdle = false
 				continue
 			}
